@@ -107,6 +107,20 @@ Theorem C18_batch_via_ProcessTransactions : forall p accts univ s leader now txs
 Proof. exact process_batch_safe. Qed.
 Print Assumptions C18_batch_via_ProcessTransactions.
 
+(** consequences of the invariant used to classify two seeded mutants after the stale-entries repair:
+    a tracked hash always names a nonce at or above the commit nonce (the `preCommitNonce <
+    newCommitNonce` guard of processCommitTransactions cannot fail), and every batched mark has its
+    entry in the priority index (size - len(batchedTxs) is the exact ready-unbatched count) *)
+Theorem C18_tracked_above_commit : forall p accts univ s, reachable p accts univ s -> forall h a n,
+  alookup tx_eqb h (hashmap s) = Some (a, n) -> get_cn s a < n + 1.
+Proof. exact tracked_above_commit. Qed.
+Print Assumptions C18_tracked_above_commit.
+
+Theorem C18_batched_in_priority : forall p accts univ s, reachable p accts univ s -> forall a n,
+  In (a, n) (batched s) -> exists ts, In (ts, (a, n)) (priority s).
+Proof. exact batched_in_priority. Qed.
+Print Assumptions C18_batched_in_priority.
+
 Theorem C18_not_below_commit_after_restart : forall h led a,
   get_cn (init_state h led) a = lookup0 a led /\ get_pn (init_state h led) a = lookup0 a led /\ batched (init_state h led) = [].
 Proof. exact restart_commit_nonce. Qed.
